@@ -5,6 +5,9 @@ open Util
    <mode> # <ncols> <nfields> <column names> # <out refs> # <pred> # <binding> # <rows> # <stepped obs> [# <e2e obs>]
    binding tokens, one per aggregate call of the predicate: t (trigger-only) | b<j> (reads SELECT aggregate j) |
      wrong:<fn>:<field> (harness: the i-th extracted call is not the i-th call written)
+   row values: n/d | N (NULL) | A, Ap, A=n/d, Ap=n/d (absent; family nested: the dotted path is absent, with or
+     without its parent section, and "=n/d" = the row carries a top-level key named like the path's leaf, which is
+     not the aggregate's input) - every A.. token is a missing value for the model
    verdicts:
      chk <clause> ...   the real window's own output violates C17 on this input (extracted checker)
      chk <clause>_casefold_binding   same, the model (which follows the observed binding) produces the same output,
@@ -52,7 +55,7 @@ let rec parse_rows nf toks =
   | k :: r ->
       let (vs, r') = take nf r in
       { gw_key = key_of_tok k;
-        gw_vals = List.map (fun v -> if v = "N" || v = "A" then None else Some (q_of_frac v)) vs } :: parse_rows nf r'
+        gw_vals = List.map (fun v -> if v = "N" || (v <> "" && v.[0] = 'A') then None else Some (q_of_frac v)) vs } :: parse_rows nf r'
 
 (* observed results: (row index token, key, values) *)
 let rec parse_obs nouts toks =
